@@ -13,7 +13,8 @@
 (*   may share a name with a visible one) - otherwise ValueError.          *)
 (*   mutate: replaced columns are dropped, new ones appended in keyword    *)
 (*   order.  select: exactly the given columns in the given order.  drop:  *)
-(*   the others in their old order.                                        *)
+(*   the others in their old order.  summarize: the grouping columns (those *)
+(*   not overwritten by an aggregate) followed by the aggregates.           *)
 (***************************************************************************)
 EXTENDS Integers, Sequences, FiniteSets, TLC, Json, IOUtils
 
@@ -35,6 +36,9 @@ Configs ==
   \cup UNION {{[verb |-> "select", vis |-> v, map |-> <<>>, args |-> a] : a \in UNION {Arrs(SeqSet(v), n) : n \in 1..Len(v)}} : v \in Visibles}
   \cup UNION {{[verb |-> "drop", vis |-> v, map |-> <<>>, args |-> a] : a \in {s \in SubSeqs(v) : s # v}} : v \in Visibles}
   \cup {[verb |-> "mutate", vis |-> v, map |-> <<>>, args |-> a] : v \in Visibles, a \in UNION {Arrs(SeqSet(Vals), n) : n \in 1..2}}
+  \* summarize: map = the grouping columns (as pairs <<name, name>>), args = the names of the aggregates
+  \cup UNION {{[verb |-> "summarize", vis |-> v, map |-> [i \in DOMAIN gs |-> <<gs[i], gs[i]>>], args |-> a] :
+                 gs \in UNION {Arrs(SeqSet(v), n) : n \in 0..(IF Len(v) >= 2 THEN 2 ELSE 1)}, a \in UNION {Arrs(SeqSet(Vals), n) : n \in 1..2}} : v \in Visibles}
 
 Lookup(m, n) == IF \E i \in DOMAIN m : m[i][1] = n THEN m[CHOOSE i \in DOMAIN m : m[i][1] = n][2] ELSE n
 
@@ -47,6 +51,8 @@ Expected(c) ==      \* the names, or the documented error
       [] c.verb = "select" -> Names(c.args)
       [] c.verb = "drop" -> Names(SelectSeq(c.vis, LAMBDA n : n \notin SeqSet(c.args)))
       [] c.verb = "mutate" -> Names(SelectSeq(c.vis, LAMBDA n : n \notin SeqSet(c.args)) \o c.args)
+      [] c.verb = "summarize" ->      \* the grouping columns that are not overwritten, then the aggregates
+            Names(SelectSeq([i \in DOMAIN c.map |-> c.map[i][1]], LAMBDA n : n \notin SeqSet(c.args)) \o c.args)
 
 Judge(c, out, exp, err) ==
     LET e == Expected(c) IN
